@@ -242,6 +242,27 @@ def run(repo, run, tier):
     run.check(R1, "declast.Parser.initializer:octal", bool(oct_),
               "an integer default value is converted with int(text): `int x = 010` is stored and rendered as 10 where C++ "
               "means 8", dm.loc(ints_[0]))
+    # name lookup: a scope's own names hide those of the enclosing scopes (a template parameter `T`/`IndexType` hides a
+    # typedef of the same name) - every unqualified_lookup consults self.symbols before it asks its parent
+    nl = 0
+    for modn in ("ast", "declast"):
+        mm_ = repo.module(modn)
+        for q_, fn_ in sorted(mm_.functions().items()):
+            if not q_.endswith(".unqualified_lookup"):
+                continue
+            own = [x for x in ast.walk(fn_) if isinstance(x, ast.Attribute) and x.attr == "symbols" and pyflow.is_name(x.value, "self")]
+            par = [c for c in ast.walk(fn_) if isinstance(c, ast.Call) and str(mm_.seg(c.func)) == "self.parent.unqualified_lookup"]
+            if not own or not par:
+                continue
+            nl += 1
+            first_own = min((x.lineno, x.col_offset) for x in own)
+            first_par = min((c.lineno, c.col_offset) for c in par)
+            run.check(R1, "%s.%s:own-names-first" % (modn, q_), first_own < first_par,
+                      "the enclosing scope is searched before the scope's own names: a name declared here (a template "
+                      "parameter) no longer hides a type of the same name declared outside, and nothing is substituted for it",
+                      mm_.loc(fn_))
+    if nl < 3:
+        raise AnalysisError("C09.R1: unqualified_lookup implementations with own symbols and a parent not found (%d)" % nl)
     # only an *unset* attribute is left out: 0 and "" are values (+rank(0), +len(0))
     skips = [c for c in ast.walk(ga) if isinstance(c, ast.Continue)]
     for c in skips:
